@@ -168,6 +168,21 @@ func (r *Report) finish(verifDir, tier string, seed int64, start time.Time, fata
 		}
 	}
 
+	// … and every rule the check declares on the reference tree must have been reached: a
+	// check that returned before declaring one has not decided it.
+	if fatal == nil {
+		for _, name := range expectedRules[r.Prop] {
+			full := r.Prop + "." + name
+			if _, has := r.rules[full]; !has {
+				if _, has2 := r.rules[name]; has2 {
+					continue
+				}
+				r.Obls = append(r.Obls, Obligation{Rule: full, Key: full + "|rule-not-reached", Pos: "-", Verdict: Undecided,
+					Reason: "the check ended without evaluating this rule (it is evaluated on the reference tree): the code has a shape the check does not follow, nothing was decided"})
+			}
+		}
+	}
+
 	var nDis, nVio, nUnd, nKnown int
 	type viol struct {
 		o Obligation
